@@ -127,6 +127,7 @@ pub(crate) fn mk_fd(subs: &crate::io_uring::sq::Submissions) -> (std::mem::Manua
 
 /// write_all: n == 0 => WriteZero; otherwise the next request covers exactly bytes [skip+n, len) at offset+n
 /// (or the current position), on the same descriptor; Ok exactly when skip+n == len, returning the original buffer.
+//@waker_stubs
 #[kani::proof]
 #[kani::unwind(3)]
 fn c10_write_all_step() {
